@@ -136,11 +136,12 @@ class Lib:
         if owner != 'FRESH':
             ex.oblige(st, 'frame', False, node,
                       '%s does not modify %s' % (how, owner),
-                      extra={'owner': owner})
+                      extra={'owner': owner, 'prop': 'C09'})
         else:
             ex.oblige(st, 'frame', True, node,
                       '%s modifies only solver-owned storage (line %s)' % (
-                          how, getattr(node, 'lineno', 0)))
+                          how, getattr(node, 'lineno', 0)),
+                      extra={'prop': 'C09'})
 
     # -------------------------------------------------------------- calls
     def call_ext(self, ex, st, name, args, kwargs, n):
@@ -543,8 +544,8 @@ class Lib:
             st.frames[fid][nm] = self.havoc_value(ex, st, nm, cur)
         for oid, o in st.heap.items():
             if o.kind == 'matrix' and o.meta.get('owner', 'FRESH') == 'FRESH':
-                o.f['sym'] = z3.Int(ex.fresh('sym_obj%d' % oid))
-                ex.axioms.append(o.f['sym'] >= 0)
+                raw = z3.Int(ex.fresh('sym_obj%d' % oid))
+                o.f['sym'] = z3.If(raw >= 0, raw, 0)
         return names
 
     def havoc_value(self, ex, st, nm, cur):
@@ -585,6 +586,8 @@ class Lib:
         inv = self.find_invariant(ex, s)
         body = s.body
         pre = st
+        if inv is not None and hasattr(inv, 'begin'):
+            inv.begin(ex, pre, fid, it)
         k = z3.Int(ex.fresh('k@%d' % s.lineno))
         lnt = ln.t if isinstance(ln, I) else (z3.IntVal(ln) if isinstance(
             ln, int) else None)
@@ -599,12 +602,16 @@ class Lib:
         tnames = assigned_names([ast.Assign(targets=[s.target], value=None)]
                                 ) if isinstance(s, ast.For) else []
         self.havoc_for_loop(ex, body_st, fid, body, tnames)
+        feasible = True
         if lnt is not None:
-            body_st.pc.append(z3.And(k >= 0, k < lnt))
-        if inv is not None:
+            rng = z3.And(k >= 0, k < lnt)
+            if ex.check(body_st.pc, [rng]) == z3.unsat:
+                feasible = False
+            body_st.pc.append(rng)
+        if inv is not None and feasible:
             for text, g in inv(ex, body_st, fid, k, it):
                 body_st.pc.append(g)
-        if isinstance(s, ast.For):
+        if isinstance(s, ast.For) and feasible:
             if it is not None and st.heap[it.oid].kind != 'dict':
                 ex.assign(body_st, fid, s.target, self.iter_elem(
                     ex, body_st, it, k), s)
@@ -612,7 +619,9 @@ class Lib:
             else:
                 ex.assign(body_st, fid, s.target, Unknown('loop element'), s)
         body_st.ghost[('loopidx', s.lineno)] = k
-        if cond is not None:
+        if not feasible:
+            outs = []                 # the loop body is unreachable
+        elif cond is not None:
             outs = cond(body_st)      # executes test + body
         else:
             outs = ex.exec_block(body, body_st, fid)
